@@ -126,7 +126,7 @@ def c18(tier):
                 roundtrip('roundtrip-atoms', 'C18', 'atoms'),
                 # every slice form written compactly and with blanks / signs / leading zeros (Gen_Slice renders both)
                 dict(kind='gen', module='Gen_Slice', label='slice-spellings', props='C18', opts='allspell=1', timeout=600,
-                     constants=dict(Rng=2, MaxN=3, Bigs=False, Forms='all'), invariants=['Emit']),
+                     constants=dict(Rng=2, MaxN=3, Bigs=True, Forms='all'), invariants=['Emit']),
                 dict(kind='gen', module='Gen_Keys', label='quote-styles-agree', props='C18', timeout=600,
                      constants=dict(MaxAtoms=2, Alphabet='reduced'), invariants=['Emit'])]
     return [sel('spellings', 'C18', SEL(2, 'pairs', 'small', spell='all'), ['Emit'], timeout=3600),
@@ -334,6 +334,19 @@ def lawfuzz():
     return dict(kind='custom', fn=fn)
 
 
+def lawfuzz_parity():
+    """C10: the same members are selected under both number decodings, on integers beyond int64 / 2^53, huge and tiny magnitudes"""
+    def fn(pid, tier, sdir, harness, known):
+        r = subprocess.run([harness, 'lawfuzz', '-parity', '-seed', str(vlib.SEED), '-n', '1500' if tier == 'quick' else '40000'], capture_output=True, text=True, cwd=sdir)
+        if r.returncode != 0:
+            raise Infra('lawfuzz failed: ' + r.stderr[-800:])
+        o = json.loads(r.stdout)
+        viol = [{'property': 'C10', 'kind': 'decode-mode-changes-selection', 'path': v[:200], 'document': '', 'signature': 'lawfuzz', 'detail': v,
+                 'case': json.dumps({'fam': 'lawfuzz', 'seed': vlib.SEED})} for v in (o.get('violations') or [])[:3]]
+        return dict(tlc_runs=[], cases=o['checked'], distinct=0, counters={'decode-parity-relations-checked': o['checked']}, samples=[], violations=viol, known_hits=[], exhaustive=False)
+    return dict(kind='custom', fn=fn)
+
+
 def c09(tier):
     if tier == 'quick':
         return [filterproto(1), filt('atoms', 'C09', 2, 1, 'both', 'all'), filt('pairs', 'C09', 2, 2, 'arr', 'two'), filt('deep-eq', 'C09', 2, 1, 'both', 'deep'), lawfuzz()]
@@ -343,8 +356,8 @@ def c09(tier):
 
 def c10(tier):
     if tier == 'quick':
-        return [filt('atoms', 'C10', 2, 1, 'both', 'all'), filt('pairs', 'C10', 1, 2, 'both', 'all'), filt('deep-eq', 'C10', 2, 1, 'both', 'deep'), traceB_eval(4000, 60000, 'C10', EVAL_ATTR)]
-    return [filt('atoms', 'C10', 3, 1, 'both', 'all', 7200), filt('pairs', 'C10', 2, 2, 'both', 'all', 7200), filt('deep-eq', 'C10', 3, 1, 'both', 'deep', 7200), traceB_eval(4000, 60000, 'C10', EVAL_ATTR)]
+        return [filt('atoms', 'C10', 2, 1, 'both', 'all'), filt('pairs', 'C10', 1, 2, 'both', 'all'), filt('deep-eq', 'C10', 2, 1, 'both', 'deep'), lawfuzz_parity(), traceB_eval(4000, 60000, 'C10', EVAL_ATTR)]
+    return [filt('atoms', 'C10', 3, 1, 'both', 'all', 7200), filt('pairs', 'C10', 2, 2, 'both', 'all', 7200), filt('deep-eq', 'C10', 3, 1, 'both', 'deep', 7200), lawfuzz_parity(), traceB_eval(4000, 60000, 'C10', EVAL_ATTR)]
 
 
 def conc_model(label, ng, prog, timeout=600):
